@@ -806,7 +806,7 @@ func c14ExecClientServer(in Sx, bl *c14Blobs) (Sx, bool) {
 			if op.Len() != 3 {
 				return Sx{}, false
 			}
-			if _, size, ok := bl.ref(op.Nth(1), op.Nth(2)); !ok || size < 0 {
+			if _, size, ok := bl.ref(op.Nth(1), op.Nth(2)); !ok || size < 0 || size > 1<<20 {
 				return Sx{}, false
 			}
 		case 2:
@@ -817,7 +817,7 @@ func c14ExecClientServer(in Sx, bl *c14Blobs) (Sx, bool) {
 				if e.IsAtom || e.Len() != 2 {
 					return Sx{}, false
 				}
-				if _, size, ok := bl.ref(e.Nth(0), e.Nth(1)); !ok || size < 0 {
+				if _, size, ok := bl.ref(e.Nth(0), e.Nth(1)); !ok || size < 0 || size > 1<<20 {
 					return Sx{}, false
 				}
 			}
